@@ -23,6 +23,7 @@ impl Xerr {
     #[verifier::external_body] pub fn out_of_bounds(idx: usize, len: usize) -> Xerr { unimplemented!() }
     #[verifier::external_body] pub fn out_of_bounds_rel(ridx: isize, len: usize) -> Xerr { unimplemented!() }
     #[verifier::external_body] pub fn type_not_supported(val: Cell) -> Xerr { unimplemented!() }
+    #[verifier::external_body] pub fn vec_stack_underflow() -> Xerr { unimplemented!() }
 }
 pub assume_specification [ <isize>::unsigned_abs ] (a: isize) -> (r: usize)
     ensures r == (if a < 0 { -(a as int) } else { a as int });
@@ -58,6 +59,8 @@ impl State {
 //@use state.fns State::push_data assumed
 //@use state.fns State::pop_data assumed
 //@use state.fns State::top_data assumed
+//@use state.fns State::pop_special assumed
+//@use state.fns State::data_depth assumed
 }
 
 //@use coll.fns ::relative_index
@@ -69,6 +72,9 @@ impl State {
 //@use coll.fns ::core_word_insert
 //@use coll.fns ::core_word_remove
 //@use coll.fns ::core_word_length
+//@use coll.fns ::vec_collect_till_ptr
+//@use coll.fns ::vec_builder_end
+//@use coll.fns ::core_word_collect
 
 } // verus!
 fn main() {}
